@@ -583,8 +583,17 @@ func builtinModels() map[string]modelFn {
 	// ----- mcache -----
 	// mcache: size-classed free lists that re-issue freed blocks (LIFO), so a block released too
 	// early really is handed out again and a stale slice into it sees the new contents
+	var mcacheMalloc func(e *Engine, st *State, c *callCtx, n int)
 	m["github.com/bytedance/gopkg/lang/mcache.Malloc"] = func(e *Engine, st *State, c *callCtx) {
-		n := e.argInt(st, c.args[0], "mcache.Malloc size")
+		if t, ok := c.args[0].(*Term); ok && !t.IsConst() {
+			// symbolic size (e.g. a length parsed from symbolic digits): one path per feasible value
+			e.forkOnTerm(st, t, 0, 1<<20, func(s *State, k int) { mcacheMalloc(e, s, c, k) },
+				func(s *State) { e.unsupportedIn(s, "symbolic mcache.Malloc size out of 0..1Mi") })
+			return
+		}
+		mcacheMalloc(e, st, c, e.argInt(st, c.args[0], "mcache.Malloc size"))
+	}
+	mcacheMalloc = func(e *Engine, st *State, c *callCtx, n int) {
 		cp := n
 		if extra, ok := c.args[1].(SliceVal); ok && extra.len > 0 {
 			cp = e.argInt(st, e.sliceSlots(st, extra)[0], "mcache.Malloc cap")
